@@ -19,8 +19,8 @@ PROP = dict(
          "request); traces_validated_against_impl = the same executions (no separate model)",
     bounds=dict(quick="K in {1,2,4}; alphabets A,B,C,E,G: all sequences of length <= 6 over 6 letters (55986 each); D, F: length <= 5 over 10 letters; "
                       "long sequence 2 x 2000 requests; ASan pass depth 4",
-                thorough="alphabets A,B,C,E,G: length <= 8 (2.0M each per K); D, F: length <= 6 (1.1M each per K); long sequences 4 x 10^4; ASan pass depth 5"),
-    deadline=dict(quick=150, thorough=1500),
+                thorough="alphabets A,B,C,E,G: length <= 9 (12.1M each per K); D, F: length <= 6 (1.1M each per K); long sequences 4 x 10^4; ASan pass depth 5"),
+    deadline=dict(quick=150, thorough=3000),
     passes=[
         dict(name="k1", cache_size=1),
         dict(name="k2", cache_size=2),
